@@ -907,6 +907,11 @@ func (t *TBtree) readInnerNodeFrom(r *appendable.Reader) (*innerNode, error) {
 		return nil, err
 	}
 
+	// an inner node has at least one child
+	if childCount == 0 {
+		return nil, ErrCorruptedFile
+	}
+
 	n := &innerNode{
 		t:       t,
 		nodes:   make([]node, childCount),
